@@ -149,7 +149,7 @@ pub fn prop() -> Prop {
         gen,
         check,
         panic_is_violation: false,
-        budget: (250_000, 8_000_000),
+        budget: (1500000, 48000000),
         extra: None,
         required: &["coloured_multi_line", "coloured_forced_break", "fast_vs_slow_path"],
         known: Some(known),
